@@ -364,25 +364,37 @@ func checkHoistUnderConjunctionOnly(r *Run) {
 						return true
 					}
 					emptyGuard := false
-					for _, l := range pathConditions(fd.Body, as) {
-						ast.Inspect(l.Expr, func(k ast.Node) bool {
-							be, ok := k.(*ast.BinaryExpr)
-							if !ok {
-								return true
+					var impliesEmpty func(e ast.Expr, neg bool) bool
+					impliesEmpty = func(e ast.Expr, neg bool) bool {
+						e = ast.Unparen(e)
+						switch t := e.(type) {
+						case *ast.UnaryExpr:
+							if t.Op == token.NOT {
+								return impliesEmpty(t.X, !neg)
 							}
-							if call, ok := ast.Unparen(be.X).(*ast.CallExpr); ok && len(call.Args) == 1 {
+						case *ast.BinaryExpr:
+							if t.Op == token.LAND && !neg {
+								return impliesEmpty(t.X, false) || impliesEmpty(t.Y, false)
+							}
+							if t.Op == token.LOR && neg {
+								return impliesEmpty(t.X, true) || impliesEmpty(t.Y, true)
+							}
+							if call, ok := ast.Unparen(t.X).(*ast.CallExpr); ok && len(call.Args) == 1 {
 								if id, ok := call.Fun.(*ast.Ident); ok && id.Name == "len" {
 									if s2, ok := ast.Unparen(call.Args[0]).(*ast.SelectorExpr); ok && s2.Sel.Name == "Kinds" {
-										if tv, has := info.Types[be.Y]; has && tv.Value != nil && tv.Value.String() == "0" {
-											if (be.Op == token.EQL && !l.Neg) || ((be.Op == token.NEQ || be.Op == token.GTR) && l.Neg) {
-												emptyGuard = true
-											}
+										if tv, has := info.Types[t.Y]; has && tv.Value != nil && tv.Value.String() == "0" {
+											return (t.Op == token.EQL && !neg) || ((t.Op == token.NEQ || t.Op == token.GTR) && neg)
 										}
 									}
 								}
 							}
-							return true
-						})
+						}
+						return false
+					}
+					for _, l := range pathConditions(fd.Body, as) {
+						if impliesEmpty(l.Expr, l.Neg) {
+							emptyGuard = true
+						}
 					}
 					c2 := shortFuncName(fn) + ":kind-matcher-hoist-once"
 					if emptyGuard {
